@@ -355,6 +355,40 @@ func (x *Exec) reflectStub(fn *ssa.Function, args []Val) (Val, bool) {
 			panic(panicV{msg: "reflect: Field index out of bounds"})
 		}
 		return x.structFieldVal(fn.Signature.Results().At(0).Type(), st.Field(i), st.Tag(i), i), true
+	case "(*reflect.rtype).FieldByName":
+		// Go's selector rules (depth, ambiguity) through go/types; the result carries the index path
+		t := rt(args[0])
+		if _, ok := t.Underlying().(*types.Struct); !ok {
+			panic(panicV{msg: "reflect: FieldByName of non-struct type"})
+		}
+		nm, ok := args[1].(StrV).concrete()
+		if !ok {
+			panic(unsupported{"reflect.Type.FieldByName with a symbolic name"})
+		}
+		sft := fn.Signature.Results().At(0).Type()
+		obj, path, _ := types.LookupFieldOrMethod(t, true, x.pkgOfType(t), nm)
+		fv, isVar := obj.(*types.Var)
+		if obj == nil || !isVar || !fv.IsField() {
+			return TupleV{x.zero(sft), cbool(false)}, true
+		}
+		// the tag of the field found: walk the path
+		cur := t
+		tag := ""
+		for _, i := range path {
+			st, ok := derefStruct(cur)
+			if !ok {
+				return TupleV{x.zero(sft), cbool(false)}, true
+			}
+			tag = st.Tag(i)
+			cur = st.Field(i).Type()
+		}
+		sf := x.structFieldVal(sft, fv, tag, path[len(path)-1]).(*StructV)
+		ia := &ArrV{E: make([]*Cell, len(path))}
+		for k, i := range path {
+			ia.E[k] = &Cell{V: cbv(64, uint64(i))}
+		}
+		x.setStructField(sft, sf, "Index", SliceV{A: ia, Len: len(path), Cap: len(path)})
+		return TupleV{sf, cbool(true)}, true
 	case "(*reflect.rtype).Implements":
 		it, ok := rt(args[1]).Underlying().(*types.Interface)
 		if !ok {
@@ -503,6 +537,29 @@ func (x *Exec) reflectStub(fn *ssa.Function, args []Val) (Val, bool) {
 			nr.V = sv.F[i].V
 		}
 		return nr, true
+	case "(reflect.Value).FieldByIndexErr", "(reflect.Value).FieldByIndex":
+		r := args[0].(RValV)
+		idx := sliceVals(args[1])
+		cur := r
+		for k, iv := range idx {
+			if k > 0 {
+				if _, isPtr := cur.T.Underlying().(*types.Pointer); isPtr {
+					if p, ok := cur.val().(PtrV); ok && p.C == nil {
+						if fn.Name() == "FieldByIndexErr" {
+							return TupleV{RValV{}, x.opaqueErr()}, true
+						}
+						panic(panicV{msg: "reflect: indirection through nil pointer to embedded struct"})
+					}
+					cur = x.rvElem(cur)
+				}
+			}
+			fr, _ := x.reflectStub(x.reflectFn("(reflect.Value).Field"), []Val{cur, iv})
+			cur = fr.(RValV)
+		}
+		if fn.Name() == "FieldByIndexErr" {
+			return TupleV{cur, IfaceV{}}, true
+		}
+		return cur, true
 	case "(reflect.Value).Index":
 		r := args[0].(RValV)
 		i := x.concInt(args[1], "Index")
@@ -784,4 +841,48 @@ func (x *Exec) deepEqual(a, b Val, seen map[[2]*Cell]bool, depth int) BoolV {
 		return cbool(b == nil)
 	}
 	panic(unsupported{fmt.Sprintf("reflect.DeepEqual over %T", a)})
+}
+
+func derefStruct(t types.Type) (*types.Struct, bool) {
+	if p, ok := t.Underlying().(*types.Pointer); ok {
+		t = p.Elem()
+	}
+	st, ok := t.Underlying().(*types.Struct)
+	return st, ok
+}
+
+func (x *Exec) pkgOfType(t types.Type) *types.Package {
+	if n, ok := t.(*types.Named); ok && n.Obj() != nil {
+		return n.Obj().Pkg()
+	}
+	return nil
+}
+
+// setStructField overwrites one named field of a struct value built by fillStruct
+func (x *Exec) setStructField(t types.Type, sv *StructV, name string, v Val) {
+	st := t.Underlying().(*types.Struct)
+	for i := 0; i < st.NumFields(); i++ {
+		if st.Field(i).Name() == name {
+			sv.F[i].V = v
+			return
+		}
+	}
+}
+
+// reflectFn finds the SSA function of a reflect method by its printed name
+func (x *Exec) reflectFn(name string) *ssa.Function {
+	if f, ok := x.w.byName.Load(name); ok {
+		return f.(*ssa.Function)
+	}
+	rp := x.w.pkg("reflect")
+	vt := rp.Type("Value").Type()
+	ms := x.w.prog.MethodSets.MethodSet(vt)
+	for i := 0; i < ms.Len(); i++ {
+		f := x.w.prog.MethodValue(ms.At(i))
+		if f != nil && x.w.name(f) == name {
+			x.w.byName.Store(name, f)
+			return f
+		}
+	}
+	panic(unsupported{"reflect model: " + name + " not found"})
 }
